@@ -354,6 +354,29 @@ func runCheck(eng *Eng, id, tier string, replay, keep bool, only string) int {
 			}()
 		}
 	}
+	// thorough tier: a contract application must not make its own path unreachable (contradictory postconditions would
+	// turn the rest of the caller's path into a vacuous proof, and a later merge would hide it from the sweep above)
+	var callCovers [][2]*Obligation
+	if tier == "thorough" {
+		for _, t := range taskList {
+			for _, cc := range t.callCovers {
+				cc := cc
+				callCovers = append(callCovers, cc)
+				for _, c := range cc {
+					c := c
+					wg.Add(1)
+					go func() {
+						defer wg.Done()
+						sem <- struct{}{}
+						defer func() { <-sem }()
+						q := c.task.query(c, nil)
+						r := runPortfolio(workDir, c.Name, q, nil, 4, false)
+						c.Result = &r
+					}()
+				}
+			}
+		}
+	}
 	wg.Wait()
 	// second chance for obligations nobody decided (solver incompleteness / a loaded machine): longer budget
 	for _, o := range allObls {
@@ -411,6 +434,14 @@ func runCheck(eng *Eng, id, tier string, replay, keep bool, only string) int {
 		}
 	}
 	sort.Strings(unreachableObls)
+	var deadCalls []string
+	for _, cc := range callCovers {
+		if cc[0].Result != nil && cc[1].Result != nil && cc[0].Result.Status != "unsat" && cc[1].Result.Status == "unsat" {
+			deadCalls = append(deadCalls, cc[1].Name)
+			undecided = append(undecided, "vacuity: the postconditions assumed at "+cc[1].Name+" contradict the state at the call: everything after it would be proved for free")
+		}
+	}
+	sort.Strings(deadCalls)
 
 	exit := 0
 	violations := 0
@@ -555,7 +586,7 @@ func runCheck(eng *Eng, id, tier string, replay, keep bool, only string) int {
 			"solver_ms_total":          solverMs,
 			"requires_listed":          requiresListed,
 			"lemmas":                   len(lemmas),
-			"vacuity":                  map[string]interface{}{"covers_checked": len(covers), "unreachable": vacuous, "obligation_paths_checked": len(pcCovers), "obligations_on_unreachable_paths": unreachableObls},
+			"vacuity":                  map[string]interface{}{"covers_checked": len(covers), "unreachable": vacuous, "obligation_paths_checked": len(pcCovers), "obligations_on_unreachable_paths": unreachableObls, "contract_applications_checked": len(callCovers), "contract_applications_that_kill_their_path": deadCalls},
 			"failed_obligations":       failedNames,
 			"undecided":                undecided,
 			"known_findings_reported":  knownLines,
